@@ -668,6 +668,67 @@ pub fn dispatch(op: &str, t: &mut Toks) -> R<String> {
         "SKIPSH" => op_skipsh(&t.bytes()?),
         "FWD" => op_fwd(&t.bytes()?),
         "CUTALL" => op_cutall(&t.message()?),
+        "JUNK" => {
+            let j = t.bytes()?;
+            let m = t.message()?;
+            let sfx = t.bytes()?;
+            match guard(|| {
+                let enc = m.as_bytes();
+                let mut a = j.clone();
+                a.extend_from_slice(&enc);
+                a.extend_from_slice(&sfx);
+                let mut b = enc.clone();
+                b.extend_from_slice(&sfx);
+                let ra = dlt_message(&a, None, true);
+                let rb = dlt_message(&b, None, true);
+                let same = match (&ra, &rb) {
+                    (Ok((r1, ParsedMessage::Item(m1))), Ok((r2, ParsedMessage::Item(m2)))) => {
+                        same_msg(m1, m2) && r1 == r2 && same_msg(m1, &m)
+                    }
+                    _ => false,
+                };
+                (format!("same={} {}", p_bool(same), p_class(&ra)), same)
+            }) {
+                Some((s, ok)) => format!("{}{}", s, oracle(ok, "junk in front of the pattern changes the parse")),
+                None => format!("PANIC{}", oracle(false, "panic")),
+            }
+        }
+        "STREAM" => {
+            let n: usize = t.num()?;
+            let mut items = vec![];
+            for _ in 0..n {
+                let j = t.bytes()?;
+                let m = t.message()?;
+                items.push((j, m));
+            }
+            match guard(|| {
+                let mut bs = vec![];
+                for (j, m) in &items {
+                    bs.extend_from_slice(j);
+                    bs.extend(m.as_bytes());
+                }
+                let mut got: Vec<ParsedMessage> = vec![];
+                let mut rest: &[u8] = &bs;
+                for _ in 0..=bs.len() {
+                    match dlt_message(rest, None, true) {
+                        Ok((r, pm)) => {
+                            got.push(pm);
+                            rest = r;
+                        }
+                        Err(_) => break,
+                    }
+                }
+                let ok = got.len() == items.len()
+                    && got.iter().zip(items.iter()).all(|(g, (_, m))| match g {
+                        ParsedMessage::Item(x) => same_msg(x, m),
+                        _ => false,
+                    });
+                (format!("count={} match={}", got.len(), p_bool(ok)), ok)
+            }) {
+                Some((s, ok)) => format!("{}{}", s, oracle(ok, "stream with junk is not recovered completely and in order")),
+                None => format!("PANIC{}", oracle(false, "panic")),
+            }
+        }
         "STABLE" => {
             let w = t.boolean()?;
             let bs = t.bytes()?;
@@ -754,6 +815,24 @@ pub fn dispatch(op: &str, t: &mut Toks) -> R<String> {
 }
 
 pub fn handle_line(line: &str) -> String {
+    if line.starts_with("FIBEX") {
+        let (head, tail) = match line.split_once(" EV") {
+            Some(x) => x,
+            None => return "BADREQ no EV".to_string(),
+        };
+        let mut t = Toks::new(head);
+        let op = t.tok().unwrap_or("");
+        let r = if op == "FIBEX" {
+            crate::fibex::op_fibex(&mut t, tail)
+        } else {
+            let _flag = t.tok();
+            crate::fibex::op_fibexdoc(&mut t, tail)
+        };
+        return match r {
+            Ok(s) => s,
+            Err(e) => format!("BADREQ {}", e),
+        };
+    }
     let mut t = Toks::new(line);
     match t.tok() {
         Err(_) => "BADREQ empty".to_string(),
